@@ -27,7 +27,9 @@ SPIN_ALT = ["-DCPP_UTILITY_SPINLOCK_RETRY_NUM=1", "-DCPP_UTILITY_BACKOFF_TIME=0"
 FLAVORS = {
     "plain": (["-O2", "-g"], "g++"),
     "tsan": (["-O1", "-g", "-fsanitize=thread", "-fno-omit-frame-pointer"], "g++"),
-    "tsanclang": (["-O1", "-g", "-fsanitize=thread", "-fno-omit-frame-pointer"], "clang++"),
+    # clang's runtime dead-locks when instrumented code runs inside __tsan_on_report, so this flavor has no
+    # callback; its reports are classified from the text (payload = the global engine object, queue nodes = heap)
+    "tsanclang": (["-O1", "-g", "-fsanitize=thread", "-fno-omit-frame-pointer", "-DVERIF_NO_TSAN_CALLBACK"], "clang++"),
     "asan": (["-O1", "-g", "-fsanitize=address,undefined", "-fno-omit-frame-pointer",
               "-fsanitize-recover=address"], "g++"),
     "asanfatal": (["-O1", "-g", "-fsanitize=address,undefined", "-fno-omit-frame-pointer",
